@@ -560,6 +560,20 @@ func dbgExec(p *dbgPlan, src string, withDebugger bool, prop string) dbgOutcome 
 			}
 		}
 		dbgCmd(dbg, prop, "status") // the debugger must still answer
+		if simrt.OthersQuiescent() {
+			// a pool worker that was ended as a suspended sink thread is gone: the pool must
+			// not count it any more (every live worker is blocked somewhere at this point)
+			live := 0
+			for _, b := range simrt.BlockedTasks() {
+				if strings.Contains(b, "ThreadPool.SetWorkerCount)") {
+					live++
+				}
+			}
+			if n := erp.Processor.ThreadPool().WorkerCount(); n != live {
+				simrt.Fail("oracle:stop-threads", "dead-worker-still-counted", "after StopThreads the pool counts %d worker(s), %d worker goroutine(s) are alive: %s", n, live, strings.Join(simrt.BlockedTasks(), "; "))
+			}
+			simrt.Count("worker_count_checked_after_stop")
+		}
 	}
 	finished := false
 	if prop == "C16" && p.Garbage && !stopped {
